@@ -1,7 +1,9 @@
 """C06 — logs never leak between concurrently running tests or threads (models M3, M4, M14).
 
 Streams
-  sess         (reused from props/_session.py) Session API calls issued by real threads in lock-step vs. M3.
+  sess         (reused from props/_session.py) Session API calls issued by real threads in lock-step vs. M3; oracle: every
+               attachment a fired event references exists on disk with the written content at that moment, names distinct
+               (blocks left by an exception — `attachAbort` — must not be referenced at all).
   C06.run      k concurrently running tests x 0..3 lcc.Threads each through the REAL runner.run_suites with
                nb_threads >= 2; self-describing payloads; a turn controller releases the logging calls of the live
                emitters in seeded interleavings (several at once when the line scheduler is on); the final report
@@ -13,6 +15,7 @@ Streams
 """
 import inspect
 import os
+import re
 import shutil
 import tempfile
 import threading
@@ -43,13 +46,18 @@ ASSUMPTIONS = [
     "user code logs through the public API (lcc.log_*, check_that/log_check, log_url, save_attachment_*, set_step, lcc.Thread)",
     "a result (test, suite setup/teardown, session setup/teardown) is started once per run (no second TestStart for a path)",
 ]
-RULE = ("C06.run: a case counts if >= 2 emitters (tests or lcc.Threads) were live at once and their log calls interleave in "
+RULE = ("attachment operations include the ones that FAIL before (or after) the file is written — a raising `with prepare_attachment` / "
+        "`prepare_image_attachment` body, handled by the test or not, nested in a block that completes, `save_attachment_file` / "
+        "`save_image_file` on a missing source — in all three streams.  "
+        "C06.run: a case counts if >= 2 emitters (tests or lcc.Threads) were live at once and their log calls interleave in "
         "the fired sequence (pattern A..B..A); C06.attach: >= 2 threads and the recorded line trace switches threads inside "
         "prepare_attachment; sess: >= 2 thread ids or a step change; distinct = hash of the case incl. schedule seed")
 EXPLANATION = ("Theorems over all interleavings (LccModel.C06.*): cursor locality and event ownership (M3 invariant), every log "
                "lands in the emitting thread's own step at the event's location and nothing else changes (M3 composed with the "
                "writer M4), attachment numbers strictly increasing under the lock for any number of threads (M14) with the "
-               "lock-free refutation, file written before the event is fired. Tied to the code by three differential streams "
+               "lock-free refutation, file written before the event is fired; the attachment events of the stream are exactly the "
+               "blocks that were left normally (a block left by an exception fires nothing; every fired attachment was prepared by an "
+               "attachBegin of the same thread; block numbers pairwise distinct). Tied to the code by three differential streams "
                "against real threads and the real runner, incl. line-level pre-emption inside session.py / writer.py.")
 
 _HARD_TIMEOUT = 90.0
@@ -187,10 +195,31 @@ def parse_payload(s):
         return None
 
 
+_EXC_PAYLOAD = re.compile(r"P;e=[^;\s]+;i=\d+;s=[^;\n]*;q=\d+;k=exc")
+
+
+def carried_payload(txt):
+    """the payload an entry carries: the entry's text itself, or — for the error log the framework writes when an
+    exception escapes the user code (`Caught unexpected exception …: <traceback>`) — the payload in the exception
+    message"""
+    if parse_payload(txt) is not None:
+        return txt
+    if isinstance(txt, str) and txt.startswith("Caught unexpected exception"):
+        m = _EXC_PAYLOAD.search(txt)
+        if m:
+            return m.group(0)
+    return None
+
+
+class _Abort(Exception):
+    """raised by generated user code inside an attachment operation"""
+
+
 class _Run:
     """everything one real run shares"""
 
-    def __init__(self, turns):
+    def __init__(self, turns, srcdir=None):
+        self.srcdir = srcdir      # where the source files of save_attachment_file / save_image_file live
         self.turns = turns
         self.emitted = {}         # eid -> list of {payload, kind, ident, att?}
         self.errors = []
@@ -214,6 +243,12 @@ class Emitter:
         self.seq += 1
         return p
 
+    def _source(self, p):
+        path = os.path.join(self.run.srcdir, "src-%s-%d.txt" % (re.sub(r"[^A-Za-z0-9]", "_", self.eid), self.seq))
+        with open(path, "w") as fh:
+            fh.write(p)
+        return path
+
     def _rec(self, p, kind, **extra):
         self.log.append(dict({"payload": p, "kind": kind, "ident": threading.get_ident()}, **extra))
 
@@ -236,11 +271,52 @@ class Emitter:
             p = self._next("att")
             if a[1] == "content":
                 lcc.save_attachment_content(p, "att.txt", p)
-            else:
+            elif a[1] == "image-content":
+                lcc.save_image_content(p, "att.png", p)
+            elif a[1] in ("file", "image-file"):
+                src = self._source(p)
+                (lcc.save_attachment_file if a[1] == "file" else lcc.save_image_file)(src, p)
+            elif a[1] == "nested":
+                # a block left by an exception (handled right there) inside a block that completes
+                inner = self._next("abort")
+                self._rec(inner, "abort", written=False)
                 with lcc.prepare_attachment("att.txt", p) as path:
+                    try:
+                        with lcc.prepare_image_attachment("in.png", inner):
+                            raise _Abort(inner)
+                    except _Abort:
+                        pass
+                    with open(path, "w") as fh:
+                        fh.write(p)
+            else:
+                with (lcc.prepare_image_attachment if a[1] == "prepare-image" else lcc.prepare_attachment)("att.txt", p) as path:
                     with open(path, "w") as fh:
                         fh.write(p)
             self._rec(p, "att")
+        elif k == "abort":
+            # an attachment operation that fails: a[1] = how, a[2] = the test code handles the exception
+            how, caught = a[1], a[2]
+            p = self._next("abort")
+            self._rec(p, "abort", written=(how == "prepare-late"))
+            try:
+                if how in ("file-missing", "image-file-missing"):
+                    missing = os.path.join(self.run.srcdir, "never-written-%d.bin" % self.seq)
+                    try:
+                        (lcc.save_attachment_file if how == "file-missing" else lcc.save_image_file)(missing, p)
+                    except (IOError, OSError) as e:
+                        raise _Abort(str(e)[:80])
+                    raise AssertionError("copying a missing file did not raise")
+                with (lcc.prepare_image_attachment if how == "prepare-image" else lcc.prepare_attachment)("att.txt", p) as path:
+                    if how == "prepare-late":
+                        with open(path, "w") as fh:
+                            fh.write(p)
+                    raise _Abort("content producer failed")
+            except _Abort:
+                if not caught:
+                    # not handled by the test code: the framework logs the exception in this thread's current step
+                    pe = self._next("exc")
+                    self._rec(pe, "exc")
+                    raise _Abort(pe)
         elif k == "step":
             self.stepno += 1
             self.inst += 1
@@ -269,6 +345,8 @@ class Emitter:
             for a in script:
                 t.gate(self.eid)
                 self.act(a, scripts)
+        except _Abort:              # a generated failure the test code does not handle: the framework's business
+            raise
         except BaseException as e:  # noqa — recorded and re-raised into the framework
             with self.run.lock:
                 self.run.errors.append("%s: %s: %s" % (self.eid, type(e).__name__, str(e)[:200]))
@@ -285,10 +363,24 @@ def _S():
     return S
 
 
+_ATT_MODES = ["content", "prepare", "content", "prepare", "file", "image-file", "prepare-image", "image-content", "nested"]
+_ABORT_HOWS = ["prepare", "prepare", "prepare-image", "file-missing", "file-missing", "image-file-missing", "prepare-late"]
+
+
+def gen_att(rng):
+    return ["att", rng.choice(_ATT_MODES)]
+
+
+def gen_abort(rng):
+    """an attachment operation that fails before (mostly) the file is written; one in four is not handled by the test"""
+    return ["abort", rng.choice(_ABORT_HOWS), rng.random() < 0.75]
+
+
 def gen_script(rng, nthreads, size, heavy=False):
     acts = []
     spawned = []
-    kinds = ["att", "att", "att", "att", "log", "step"] if heavy else ["log", "log", "log", "check", "url", "att", "step", "step"]
+    kinds = ["att", "att", "att", "abort", "log", "step"] if heavy else \
+        ["log", "log", "log", "check", "url", "att", "att", "abort", "step", "step"]
     for _ in range(size):
         r = rng.random()
         if len(spawned) < nthreads and r < 0.25:
@@ -303,7 +395,9 @@ def gen_script(rng, nthreads, size, heavy=False):
             elif k == "check":
                 acts.append(["check", rng.random() < 0.8])
             elif k == "att":
-                acts.append(["att", rng.choice(["content", "prepare"])])
+                acts.append(gen_att(rng))
+            elif k == "abort":
+                acts.append(gen_abort(rng))
             else:
                 acts.append([k])
     while len(spawned) < nthreads:
@@ -314,7 +408,7 @@ def gen_script(rng, nthreads, size, heavy=False):
 
 
 def gen_child(rng, size, heavy=False):
-    kinds = ["att", "att", "att", "log", "step"] if heavy else ["log", "log", "log", "check", "url", "att", "step"]
+    kinds = ["att", "att", "abort", "log", "step"] if heavy else ["log", "log", "log", "check", "url", "att", "att", "abort", "step"]
     out = []
     for _ in range(size):
         k = rng.choice(kinds)
@@ -323,7 +417,9 @@ def gen_child(rng, size, heavy=False):
         elif k == "check":
             out.append(["check", rng.random() < 0.8])
         elif k == "att":
-            out.append(["att", rng.choice(["content", "prepare"])])
+            out.append(gen_att(rng))
+        elif k == "abort":
+            out.append(gen_abort(rng))
         else:
             out.append([k])
     return out
@@ -391,7 +487,8 @@ def real_run(case):
 
     sc = case["sched"]
     turns = Turns(_random.Random(sc["seed"]), sc["strategy"], sc.get("width", 1))
-    run = _Run(turns)
+    srcdir = tempfile.mkdtemp(prefix="lccverif-c06src-")
+    run = _Run(turns, srcdir)
     suites = []
     for si, sd in enumerate(case["suites"]):
         suite = Suite(None, sd["name"], "S:" + sd["name"])
@@ -480,6 +577,7 @@ def real_run(case):
             sched.uninstall()
         S.Session._instance = old_inst
         shutil.rmtree(tmp, ignore_errors=True)
+        shutil.rmtree(srcdir, ignore_errors=True)
 
 
 # ------------------------------------------------------------------------------------------------
@@ -518,11 +616,17 @@ def landing(report):
         for si, st in enumerate(res["steps"]):
             for pi, e in enumerate(st["entries"]):
                 txt = entry_text(e)
-                if parse_payload(txt) is None:
+                cp = carried_payload(txt)
+                if cp is None:
                     alien.append((loc, si, pi, txt))
                 else:
-                    where.setdefault(txt, []).append((loc, si, pi))
+                    where.setdefault(cp, []).append((loc, si, pi))
     return where, alien
+
+
+def entry_payload(e):
+    cp = carried_payload(entry_text(e))
+    return (cp, parse_payload(cp)) if cp is not None else (None, None)
 
 
 def owner_location(eid):
@@ -548,6 +652,13 @@ def oracle_run(case, obs):
     # 1. every emitted payload is recorded exactly once, in its own result
     for p, (eid, x) in emitted_all.items():
         places = where.get(p, [])
+        if x["kind"] == "abort":
+            # an attachment operation that failed (its `with` body / the copy raised): nothing may reference it
+            if places:
+                fails.append(F("C06/aborted-attachment-recorded",
+                               f"{p}: the attachment operation raised before completing (file written: {x.get('written')}) "
+                               f"but the report references it at {places}"))
+            continue
         if not places:
             fails.append(F("C06/payload-lost", f"{p} was emitted (call returned) but is not in the report"))
             continue
@@ -568,13 +679,13 @@ def oracle_run(case, obs):
         for si, st in enumerate(res["steps"]):
             keys = set()
             for e in st["entries"]:
-                pp = parse_payload(entry_text(e))
+                cp, pp = entry_payload(e)
                 if pp is None:
                     continue
                 keys.add((pp["e"], pp["i"]))
                 if pp["s"] != st["desc"]:
                     fails.append(F("C06/payload-in-foreign-step",
-                                   f"{entry_text(e)} (current step {pp['s']!r}) recorded in step {st['desc']!r} of {loc}"))
+                                   f"{cp} (current step {pp['s']!r}) recorded in step {st['desc']!r} of {loc}"))
             if len(keys) > 1:
                 fails.append(F("C06/payload-in-foreign-step", f"step {si} ({st['desc']!r}) of {loc} mixes emitters/steps {sorted(keys)}"))
             for key in keys:
@@ -586,7 +697,7 @@ def oracle_run(case, obs):
     for loc, res in iter_results(report):
         for si, st in enumerate(res["steps"]):
             for pi, e in enumerate(st["entries"]):
-                pp = parse_payload(entry_text(e))
+                _, pp = entry_payload(e)
                 if pp is not None:
                     per.setdefault(pp["e"], []).append(pp["q"])
     for eid, seqs in per.items():
@@ -607,11 +718,16 @@ def oracle_run(case, obs):
     if len(names) != len(set(names)):
         dup = sorted({n for n in names if names.count(n) > 1})
         fails.append(F("C06/attachment-name-duplicate", f"attachment names used more than once: {dup}"))
+    # … and the same for what the fired stream references (what every reporting backend is told)
+    for ev in obs["fired"]:
+        if ev["e"] == "att" and obs["files"].get(ev["file"]) is None:
+            fails.append(F("C06/attachment-file-missing", f"{ev['file']} referenced by the fired event of {ev['desc']} does not exist"))
     # 5. session side: a fired step-level event carries the emitting thread's id and its own location
     for ev in obs["fired"]:
         if ev.get("ident_matches") is False:
             fails.append(F("C06/event-foreign-thread-id", f"event {ev['e']} carries a thread id that is not the firing thread's"))
         txt = ev.get("msg") if ev["e"] == "log" else ev.get("desc") if ev["e"] in ("check", "att", "url") else None
+        txt = carried_payload(txt) if txt else None
         pp = parse_payload(txt) if txt else None
         if pp is not None:
             loc = ev["loc"]
@@ -634,6 +750,7 @@ def interleaves(fired):
     seq = []
     for ev in fired:
         txt = ev.get("msg") if ev["e"] == "log" else ev.get("desc") if ev["e"] in ("check", "att", "url") else None
+        txt = carried_payload(txt) if txt else None
         pp = parse_payload(txt) if txt else None
         if pp is not None and (not seq or seq[-1] != pp["e"]):
             seq.append(pp["e"])
@@ -671,6 +788,28 @@ class RunStream(C.Stream):
                      "teardown": {"main": [["log", "info"]], "threads": []}, "tests": [
              {"name": "t%d" % i, "main": [["log", "info"], ["att", "content"], ["step"], ["url"], ["log", "info"]], "threads": []}
              for i in range(5)]}]},
+        # attachment operations that fail before the file is written, handled by the test code: a missing source file,
+        # a raising `with` body (also inside an outer block that completes), in the test thread and in a lcc.Thread,
+        # two tests at once; then one that is NOT handled (the framework logs the exception, the test fails)
+        {"n": 2, "line": None, "sched": {"strategy": "rr", "width": 1, "seed": 3},
+         "suites": [{"name": "s0", "setup": None, "teardown": None, "tests": [
+             {"name": "t%d" % i,
+              "main": [["att", "content"], ["spawn", 0], ["abort", "file-missing", True], ["att", "file"], ["abort", "prepare", True],
+                       ["att", "nested"], ["step"], ["abort", "prepare-image", True], ["att", "prepare"], ["join", 0],
+                       ["abort", "image-file-missing", False], ["log", "info"]],
+              "threads": [[["att", "image-file"], ["abort", "prepare", True], ["abort", "prepare-late", True], ["log", "info"],
+                           ["abort", "file-missing", False], ["log", "info"]]]}
+             for i in range(2)]}]},
+        # minimised failing inputs of the seeded change C06-2 (LogAttachmentEvent fired in a `finally:`)
+        {"n": 4, "line": None, "sched": {"strategy": "fifo", "width": 1, "seed": 637710979},
+         "suites": [{"name": "s0", "setup": None, "teardown": None, "tests": [
+             {"name": "t3", "main": [["spawn", 0]], "threads": [[["abort", "prepare-late", True]]]}]}]},
+        {"n": 4, "line": None, "sched": {"strategy": "random", "width": 1, "seed": 970222460},
+         "suites": [{"name": "s0", "setup": None, "teardown": None, "tests": [
+             {"name": "t5", "main": [["spawn", 0], ["join", 0]], "threads": [[["att", "nested"]]]}]}]},
+        {"n": 2, "line": None, "sched": {"strategy": "fifo", "width": 1, "seed": 5},
+         "suites": [{"name": "s0", "setup": None, "teardown": None, "tests": [
+             {"name": "t0", "main": [["abort", "file-missing", True]], "threads": []}]}]},
     ]
 
     def __init__(self, ctx):
@@ -738,6 +877,20 @@ class RunStream(C.Stream):
             f.append("suite-teardown-logs")
         if any(e["k"] == "att" for _, r in iter_results(obs["report"]) for st in r["steps"] for e in st["entries"]):
             f.append("attachments")
+        for lst in obs["emitted"].values():
+            for x in lst:
+                if x["kind"] == "abort":
+                    f.append("attachment-aborted" + ("-after-write" if x.get("written") else ""))
+                elif x["kind"] == "exc":
+                    f.append("attachment-abort-not-handled-by-test")
+        for s_ in case["suites"]:
+            for t in s_["tests"] + [h for h in (s_.get("setup"), s_.get("teardown")) if h]:
+                for a in t["main"] + [b for ch in t["threads"] for b in ch]:
+                    if a[0] == "att" and a[1] not in ("content", "prepare"):
+                        f.append("att:" + a[1])
+                    elif a[0] == "abort":
+                        f.append("abort:" + a[1])
+        f = sorted(set(f))
         if interleaves(obs["fired"]):
             f.append("interleaved")
         if obs["gate_timeouts"]:
@@ -850,13 +1003,25 @@ def real_attach(case):
             except threading.BrokenBarrierError:
                 pass
             mine = []
+            plan = (case.get("plan") or [])
             for k in range(case["per"]):
                 content = "T%d-%d" % (t, k)
-                with session.prepare_attachment("a.txt", content) as path:
-                    with open(path, "w") as fh:
-                        fh.write(content)
-                    record.append((t, "<write>", os.path.basename(path), content))
-                    mine.append(os.path.basename(path))
+                # "ok" | "abort" (the body raises before writing the file) | "abort-late" (… after writing it)
+                kind = plan[t - 1][k] if t - 1 < len(plan) and k < len(plan[t - 1]) else "ok"
+                try:
+                    with session.prepare_attachment("a.txt", content) as path:
+                        mine.append([os.path.basename(path), kind, k])
+                        if kind == "abort":
+                            record.append((t, "<abort>", os.path.basename(path), None))
+                            raise _Abort(content)
+                        with open(path, "w") as fh:
+                            fh.write(content)
+                        record.append((t, "<write>", os.path.basename(path), content))
+                        if kind == "abort-late":
+                            record.append((t, "<abort>", os.path.basename(path), None))
+                            raise _Abort(content)
+                except _Abort:
+                    pass
             got[t] = mine
 
         def go():
@@ -884,6 +1049,8 @@ def real_attach(case):
             elif kind == "<write>":
                 trace.append([tag, "writeFile"])
                 names_by_thread.setdefault(tag, []).append(a)
+            elif kind == "<abort>":
+                trace.append([tag, "abort"])
             elif kind == "<fire>":
                 trace.append([tag, "fireEvent"])
                 fired.append({"thread": tag, "path": a, "content": b})
@@ -924,12 +1091,20 @@ class AttachStream(C.Stream):
     corpus = [
         {"threads": 2, "per": 2, "line": {"strategy": "random", "p": 0.5, "seed": 7}},
         {"threads": 4, "per": 3, "line": {"strategy": "priority", "depth": 4, "seed": 11}},
+        # blocks left by an exception before / after the file is written, next to blocks that complete
+        {"threads": 3, "per": 3, "line": {"strategy": "random", "p": 0.5, "seed": 13},
+         "plan": [["abort", "ok", "abort-late"], ["ok", "abort", "ok"], ["abort", "abort", "ok"]]},
     ]
 
     def gen(self, rng, i):
-        return {"threads": rng.randint(2, 6), "per": rng.randint(1, 4),
+        threads, per = rng.randint(2, 6), rng.randint(1, 4)
+        case = {"threads": threads, "per": per,
                 "line": {"strategy": rng.choice(["random", "random", "priority"]), "p": rng.choice([0.3, 0.5, 0.8]),
                          "depth": rng.randint(1, 6), "seed": rng.randrange(1 << 30)}}
+        if rng.random() < 0.5:
+            # some blocks are left by an exception raised by the body, before or after it wrote the file
+            case["plan"] = [[rng.choice(["ok", "ok", "abort", "abort", "abort-late"]) for _ in range(per)] for _ in range(threads)]
+        return case
 
     def impl(self, case):
         return real_attach(case)
@@ -937,22 +1112,32 @@ class AttachStream(C.Stream):
     def oracle(self, case, obs):
         F = C.Failure
         fails = []
-        allnames = [n for lst in obs["names"].values() for n in lst]
+        allnames = [n for lst in obs["names"].values() for n, _, _ in lst]
         if len(allnames) != len(set(allnames)):
             dup = sorted({n for n in allnames if allnames.count(n) > 1})
             fails.append(F("C06/attachment-name-duplicate", f"prepare_attachment handed out the same file name twice: {dup}"))
         for ev in obs["fired"]:
             if ev["content"] is None:
                 fails.append(F("C06/attachment-file-missing", f"LogAttachmentEvent fired for {ev['path']} before the file exists"))
-        expect = {}
+        expect, aborted = {}, set()
         for t, lst in obs["names"].items():
-            for k, nm in enumerate(lst):
-                expect[nm] = "T%s-%d" % (t, k)
+            for nm, kind, k in lst:
+                if kind == "abort":
+                    aborted.add(nm)
+                else:
+                    expect[nm] = "T%s-%d" % (t, k)
+                    if kind != "ok":
+                        aborted.add(nm)
         for nm, content in expect.items():
             if allnames.count(nm) == 1 and obs["files"].get(nm) != content:
                 fails.append(F("C06/attachment-content", f"{nm} holds {obs['files'].get(nm)!r}, written was {content!r}"))
-        if len(obs["fired"]) != case["threads"] * case["per"]:
-            fails.append(F("C06/attachment-event-count", f"{len(obs['fired'])} attachment events for {case['threads'] * case['per']} attachments"))
+        referenced = [os.path.basename(ev["path"]) for ev in obs["fired"]]
+        for nm in sorted(aborted & set(referenced)):
+            fails.append(F("C06/aborted-attachment-recorded", f"the block that was handed {nm} was left by an exception but a "
+                                                              f"LogAttachmentEvent references it"))
+        n_ok = len(allnames) - len(aborted)
+        if len(obs["fired"]) != n_ok:
+            fails.append(F("C06/attachment-event-count", f"{len(obs['fired'])} attachment events for {n_ok} completed attachments"))
         seen, out = set(), []
         for f in fails:
             if f.signature not in seen:
@@ -974,7 +1159,7 @@ class AttachStream(C.Stream):
         model = {}
         for t, n in ans["numbers"]:
             model.setdefault(str(t), []).append(n)
-        real = {t: [int(nm.split("_")[0]) for nm in lst] for t, lst in obs["names"].items()}
+        real = {t: [int(nm.split("_")[0]) for nm, _, _ in lst] for t, lst in obs["names"].items()}
         if model != real:
             return f"numbers handed out differ: model {model} real {real}"
         if obs["count"] is not None and ans["count"] != obs["count"]:
@@ -992,6 +1177,8 @@ class AttachStream(C.Stream):
             f.append("steal")
         if not obs["has_lock"]:
             f.append("no-lock-attribute")
+        kinds = {kind for lst in obs["names"].values() for _, kind, _ in lst}
+        f += sorted("block-" + k for k in kinds if k != "ok")
         return f
 
     def shrink(self, case):
@@ -999,6 +1186,14 @@ class AttachStream(C.Stream):
             yield dict(case, threads=case["threads"] - 1)
         if case["per"] > 1:
             yield dict(case, per=case["per"] - 1)
+        plan = case.get("plan")
+        if plan:
+            for t in range(len(plan)):
+                for k in range(len(plan[t])):
+                    if plan[t][k] != "ok":
+                        c = dict(case, plan=[list(r) for r in plan])
+                        c["plan"][t][k] = "ok"
+                        yield c
 
 
 class SessStream(_session.SessionStream):
@@ -1007,6 +1202,11 @@ class SessStream(_session.SessionStream):
     quick_seconds = 12
     thorough_cases = 1500
     thorough_seconds = 150
+
+    def oracle(self, case, obs):
+        # C06, last sentence, on the observation only: a referenced attachment exists with the written content
+        # (blocks left by an exception included: they must not be referenced at all)
+        return _session.attachment_failures("C06", obs)
 
 
 def streams(ctx):
